@@ -145,4 +145,377 @@ theorem wpn_congr (p : Expo ℝ) (n : Nat) (ω ω' a b : Nat → ℝ)
     | succ m ih => simp only [maxTo, ih (by omega), h m (by omega), hω m (by omega)]
   cases p <;> simp only [wpn, hs, wmax, hm n le_rfl]
 
+variable {𝕜 : Type} [RCLike 𝕜]
+
+theorem wp_const (q : ℝ) (n : Nat) (c : ℝ) (hc : 0 ≤ c) (a : Nat → ℝ) (ha : ∀ i, 0 ≤ a i) :
+    wp q n (fun _ => c) a = c ^ (1 / q) * (∑ i ∈ range n, a i ^ q) ^ (1 / q) := by
+  unfold wp
+  rw [← Finset.sum_mul, mul_comm, Real.mul_rpow hc
+    (Finset.sum_nonneg (fun i _ => Real.rpow_nonneg (ha i) _))]
+
+theorem tNorm_eq_wpn (close1 : ℝ → Bool) (w : TW ℝ) (n : Nat) (hw : twPos w n) (p : Expo ℝ)
+    (hp : ExpoPos p) (x : Nat → 𝕜) :
+    tNorm (ops 𝕜) (roots close1) w p n x = wpn p n (twFn w) (fun i => ‖x i‖) := by
+  cases w with
+  | const c =>
+    rcases Nat.eq_zero_or_pos n with rfl | hn
+    · cases p with
+      | gen q =>
+        have : q⁻¹ ≠ 0 := inv_ne_zero (ne_of_gt hp)
+        simp [tNorm, vecNorm, sumTo, wpn, wp, Real.zero_rpow this]
+      | _ => simp [tNorm, vecNorm, sumTo, maxTo, wpn, wp, wmax]
+    have hc : 0 ≤ c := (hw 0 hn).le
+    have hn0 : ∀ i, 0 ≤ ‖x i‖ := fun i => norm_nonneg _
+    cases p with
+    | one =>
+      simp only [tNorm, vecNorm, sumTo_eq_sum, roots_rpow, ops_abs, wpn, twFn,
+        wp_const 1 n c hc _ hn0, Real.rpow_one, div_one]
+    | two =>
+      simp only [tNorm, vecNorm, sumTo_eq_sum, roots_sqrt, ops_abs, wpn, twFn,
+        wp_const 2 n c hc _ hn0, Real.sqrt_eq_rpow]
+      congr 2
+      exact Finset.sum_congr rfl (fun i _ => by rw [Real.rpow_two]; ring)
+    | inf =>
+      simp only [tNorm, vecNorm, ops_abs, wpn, wmax, twFn, ← maxTo_mul_left c hc]
+      congr 1; funext i; ring
+    | gen q =>
+      simp only [tNorm, vecNorm, sumTo_eq_sum, roots_rpow, ops_abs, wpn, twFn,
+        wp_const q n c hc _ hn0]
+  | arr w =>
+    cases p with
+    | one => simp only [tNorm, sumTo_eq_sum, roots_rpow, ops_abs, wpn, wp, twFn]
+    | two =>
+      have hre : RCLike.re (tInner (ops 𝕜) (.arr w) n x x) = ∑ i ∈ range n, ‖x i‖ ^ 2 * w i := by
+        rw [tInner_eq_wsum, wsum_self, RCLike.ofReal_re]; rfl
+      have hS : 0 ≤ ∑ i ∈ range n, ‖x i‖ ^ 2 * w i :=
+        Finset.sum_nonneg (fun i hi => mul_nonneg (sq_nonneg _) (hw i (mem_range.mp hi)).le)
+      simp only [tNorm, roots_sqrt, ops_re, hre, max_eq_left hS, wpn, wp, twFn, Real.sqrt_eq_rpow]
+      congr 1
+      exact Finset.sum_congr rfl (fun i _ => by rw [Real.rpow_two])
+    | inf => simp only [tNorm, ops_abs, wpn, wmax, twFn]
+    | gen q => simp only [tNorm, sumTo_eq_sum, roots_rpow, ops_abs, wpn, wp, twFn]
+
+theorem wp_absorb (q : ℝ) (n : Nat) (ω a g G : Nat → ℝ) (ha : ∀ i, i < n → 0 ≤ a i)
+    (hg : ∀ i, i < n → 0 ≤ g i) (hG : ∀ i, i < n → g i ^ q = G i) :
+    wp q n ω (fun i => a i * g i) = wp q n (fun i => ω i * G i) a := by
+  unfold wp
+  congr 1
+  refine Finset.sum_congr rfl (fun i hi => ?_)
+  have hi' := mem_range.mp hi
+  rw [Real.mul_rpow (ha i hi') (hg i hi'), hG i hi']; ring
+
+theorem maxTo_congr (n : Nat) (f g : Nat → ℝ) (h : ∀ i, i < n → f i = g i) :
+    maxTo n f = maxTo n g := by
+  induction n with
+  | zero => rfl
+  | succ n ih => simp only [maxTo, ih (fun i hi => h i (by omega)), h n (by omega)]
+
+theorem vecNorm_eq_wpn (close1 : ℝ → Bool) (p : Expo ℝ) (m : Nat) (b : Nat → ℝ) :
+    vecNorm (roots close1) p m b = wpn p m (fun _ => 1) b := by
+  cases p with
+  | one => simp [vecNorm, sumTo_eq_sum, wpn, wp]
+  | two =>
+    simp only [vecNorm, sumTo_eq_sum, roots_sqrt, wpn, wp, mul_one, Real.sqrt_eq_rpow]
+    congr 1
+    exact Finset.sum_congr rfl (fun i _ => by rw [Real.rpow_two]; ring)
+  | inf => simp [vecNorm, wpn, wmax]
+  | gen q => simp [vecNorm, sumTo_eq_sum, wpn, wp]
+
+/-- real exponent of a finite `Expo` -/
+noncomputable def qv : Expo ℝ → ℝ
+  | .one => 1 | .two => 2 | .inf => 1 | .gen q => q
+
+theorem qv_pos (p : Expo ℝ) (hp : ExpoPos p) : 0 < qv p := by
+  cases p <;> simp_all [qv, ExpoPos]
+
+theorem wpn_finite (p : Expo ℝ) (hp : p.isInf = false) (n : Nat) (ω a : Nat → ℝ) :
+    wpn p n ω a = wp (qv p) n ω a := by
+  cases p <;> simp_all [wpn, qv, Expo.isInf]
+
+theorem inv_eq_qv (p : Expo ℝ) (hp : p.isInf = false) : (Expo.inv p : ℝ) = 1 / qv p := by
+  cases p <;> simp_all [Expo.inv, qv, Expo.isInf]
+
+theorem rpow_inv_rpow (f q : ℝ) (hf : 0 ≤ f) (hq : q ≠ 0) : (f ^ (1 / q)) ^ q = f := by
+  rw [← Real.rpow_mul hf, one_div_mul_cancel hq, Real.rpow_one]
+
+theorem sideFac_rpow (close1 : ℝ → Bool) (q : ℝ) (hq : q ≠ 0) (a : Axis ℝ)
+    (ha : 0 < a.fl ∧ 0 < a.fr) (k : Nat) :
+    (sideFac close1 (fun f => f ^ (1 / q)) a k) ^ q = sideFac close1 (fun f => f) a k := by
+  have h1 := rpow_inv_rpow a.fl q ha.1.le hq
+  have h2 := rpow_inv_rpow a.fr q ha.2.le hq
+  have p1 : 0 ≤ a.fl ^ (1 / q) := Real.rpow_nonneg ha.1.le _
+  have p2 : 0 ≤ a.fr ^ (1 / q) := Real.rpow_nonneg ha.2.le _
+  unfold sideFac
+  split_ifs <;> simp only [Real.mul_rpow, p1, p2, zero_le_one, h1, h2, Real.one_rpow]
+
+theorem bfac_rpow (close1 : ℝ → Bool) (q : ℝ) (hq : q ≠ 0) (axes : List (Axis ℝ))
+    (h : axesPos axes) (i : Nat) :
+    (bfac close1 (fun f => f ^ (1 / q)) axes i) ^ q = bfac close1 (fun f => f) axes i := by
+  induction axes generalizing i with
+  | nil => simp [bfac]
+  | cons a l ih =>
+    simp only [bfac]
+    rw [Real.mul_rpow (sideFac_pos close1 _ (fun f hf => Real.rpow_pos_of_pos hf _) a (h a (by simp)) _).le
+      (bfac_pos close1 _ (fun f hf => Real.rpow_pos_of_pos hf _) l (fun b hb => h b (by simp [hb])) _).le,
+      sideFac_rpow close1 q hq a (h a (by simp)), ih (fun b hb => h b (by simp [hb]))]
+
+theorem dNorm_eq_wpn (close1 : ℝ → Bool) (u : Bool) (axes : List (Axis ℝ)) (w : TW ℝ)
+    (hw : twPos w (axesSize axes)) (ha : axesPos axes) (p : Expo ℝ) (hp : ExpoPos p)
+    (x : Nat → 𝕜) :
+    dNorm (ops 𝕜) (roots close1) u axes w p x =
+      wpn p (axesSize axes) (dW close1 u axes w p) (fun i => ‖x i‖) := by
+  unfold dNorm dW
+  simp only [roots_close1]
+  by_cases h : scalesBoundary close1 u axes w p = true
+  · simp only [h, ↓reduceIte]
+    have hfin : p.isInf = false := by
+      cases p <;> simp_all [scalesBoundary, uniformlyWeighted, Expo.isInf]
+    have hq := qv_pos p hp
+    rw [tNorm_eq_wpn close1 w _ hw p hp, wpn_finite p hfin, wpn_finite p hfin]
+    simp only [ops_rK, roots_rpow, norm_mul, RCLike.norm_ofReal, inv_eq_qv p hfin]
+    have hpos := fun i => bfac_pos close1 (fun f => f ^ (1 / qv p))
+      (fun f hf => Real.rpow_pos_of_pos hf _) axes ha i
+    simp only [abs_of_pos (hpos _)]
+    exact wp_absorb (qv p) _ _ _ _ _ (fun i _ => norm_nonneg _) (fun i _ => (hpos i).le)
+      (fun i _ => bfac_rpow close1 (qv p) hq.ne' axes ha i)
+  · simp only [h]
+    exact tNorm_eq_wpn close1 w _ hw p hp x
+
+theorem wpn_const (p : Expo ℝ) (hp : ExpoPos p) (m : Nat) (c : ℝ) (hc : 0 < c ∨ m = 0)
+    (b : Nat → ℝ) (hb : ∀ i, 0 ≤ b i) :
+    wpn p m (fun _ => c) b =
+      (match p with | .inf => c | .one => c | .two => c ^ ((1 : ℝ) / 2) | .gen q => c ^ (1 / q)) *
+        wpn p m (fun _ => 1) b := by
+  rcases hc with hc | rfl
+  · cases p with
+    | one =>
+      show wp 1 m (fun _ => c) b = c * wp 1 m (fun _ => 1) b
+      rw [wp_const 1 m c hc.le b hb, wp_const 1 m 1 zero_le_one b hb]; simp
+    | two =>
+      show wp 2 m (fun _ => c) b = c ^ ((1 : ℝ) / 2) * wp 2 m (fun _ => 1) b
+      rw [wp_const 2 m c hc.le b hb, wp_const 2 m 1 zero_le_one b hb]; simp
+    | inf =>
+      simp only [wpn, wmax, mul_one, ← maxTo_mul_left c hc.le]
+      congr 1; funext i; ring
+    | gen q =>
+      show wp q m (fun _ => c) b = c ^ (1 / q) * wp q m (fun _ => 1) b
+      rw [wp_const q m c hc.le b hb, wp_const q m 1 zero_le_one b hb]; simp
+  · cases p with
+    | gen q =>
+      have : q⁻¹ ≠ 0 := inv_ne_zero (ne_of_gt hp)
+      simp [wpn, wp, Real.zero_rpow this]
+    | _ => simp [wpn, wp, wmax, maxTo]
+
+theorem pNorm_eq_wpn (close1 : ℝ → Bool) (w : PW ℝ) (m : Nat) (hw : pwPos w m) (p : Expo ℝ)
+    (hp : ExpoPos p) (nr : Nat → ℝ) :
+    pNorm (roots close1) w p m nr = wpn p m (pwFn w) (fun k => |nr k|) := by
+  cases w with
+  | const c =>
+    have hc : 0 < c ∨ m = 0 := by
+      rcases Nat.eq_zero_or_pos m with h | h
+      · exact Or.inr h
+      · exact Or.inl (hw 0 h)
+    have := wpn_const p hp m c hc (fun k => |nr k|) (fun _ => abs_nonneg _)
+    simp only [pwFn]
+    rw [this]
+    cases p <;> simp only [pNorm, roots_rpow, roots_rabs, vecNorm_eq_wpn]
+  | arr w =>
+    have hw' : ∀ i, i < m → 0 < w i := hw
+    simp only [pwFn]
+    cases p with
+    | one =>
+      simp only [pNorm, roots_rabs, vecNorm_eq_wpn, wpn]
+      have := wp_absorb 1 m (fun _ => 1) (fun k => |nr k|) w w (fun _ _ => abs_nonneg _)
+        (fun i hi => (hw' i hi).le) (fun i _ => Real.rpow_one _)
+      simp only [one_mul] at this
+      rw [← this]
+      unfold wp
+      congr 1
+      exact Finset.sum_congr rfl (fun i hi => by
+        beta_reduce; rw [abs_mul, abs_of_pos (hw' i (mem_range.mp hi))])
+    | inf =>
+      simp only [pNorm, roots_rabs, vecNorm_eq_wpn, wpn, wmax, mul_one]
+      exact maxTo_congr m _ _ (fun i hi => by rw [abs_mul, abs_of_pos (hw' i hi)])
+    | two =>
+      simp only [pNorm, roots_rabs, roots_rpow, vecNorm_eq_wpn, wpn]
+      have := wp_absorb 2 m (fun _ => 1) (fun k => |nr k|) (fun k => w k ^ ((1 : ℝ) / 2)) w
+        (fun _ _ => abs_nonneg _) (fun i hi => Real.rpow_nonneg (hw' i hi).le _)
+        (fun i hi => rpow_inv_rpow (w i) 2 (hw' i hi).le two_ne_zero)
+      simp only [one_mul] at this
+      rw [← this]
+      unfold wp
+      congr 1
+      exact Finset.sum_congr rfl (fun i hi => by
+        beta_reduce; rw [abs_mul, abs_of_nonneg (Real.rpow_nonneg (hw' i (mem_range.mp hi)).le _)])
+    | gen q =>
+      simp only [pNorm, roots_rabs, roots_rpow, vecNorm_eq_wpn, wpn]
+      have := wp_absorb q m (fun _ => 1) (fun k => |nr k|) (fun k => w k ^ (1 / q)) w
+        (fun _ _ => abs_nonneg _) (fun i hi => Real.rpow_nonneg (hw' i hi).le _)
+        (fun i hi => rpow_inv_rpow (w i) q (hw' i hi).le (ne_of_gt hp))
+      simp only [one_mul] at this
+      rw [← this]
+      unfold wp
+      congr 1
+      exact Finset.sum_congr rfl (fun i hi => by
+        beta_reduce; rw [abs_mul, abs_of_nonneg (Real.rpow_nonneg (hw' i (mem_range.mp hi)).le _)])
+
+/-- every exponent in the space tree satisfies `P` -/
+def AllExpo (P : Expo ℝ → Prop) : Space ℝ → Prop
+  | .tens _ _ p => P p
+  | .discr _ _ _ p => P p
+  | .prod m _ p comp => P p ∧ ∀ k, k < m → AllExpo P (comp k)
+
+theorem AllExpo.mono {P Q : Expo ℝ → Prop} (h : ∀ p, P p → Q p) (s : Space ℝ) (hs : AllExpo P s) :
+    AllExpo Q s := by
+  induction s with
+  | tens n w p => exact h _ hs
+  | discr u axes w p => exact h _ hs
+  | prod m w p comp ih => exact ⟨h _ hs.1, fun k hk => ih k (hs.2 k hk)⟩
+
+theorem shaped_add (s : Space ℝ) (x y : El 𝕜) (hx : Shaped s x) (hy : Shaped s y) :
+    Shaped s (x.add y) := by
+  induction s generalizing x y with
+  | tens n w p => cases x <;> cases y <;> simp_all [Shaped, El.add]
+  | discr u axes w p => cases x <;> cases y <;> simp_all [Shaped, El.add]
+  | prod m w p comp ih =>
+    cases x <;> cases y <;> simp_all [Shaped, El.add]
+
+theorem shaped_sub (s : Space ℝ) (x y : El 𝕜) (hx : Shaped s x) (hy : Shaped s y) :
+    Shaped s (x.sub y) := by
+  induction s generalizing x y with
+  | tens n w p => cases x <;> cases y <;> simp_all [Shaped, El.sub]
+  | discr u axes w p => cases x <;> cases y <;> simp_all [Shaped, El.sub]
+  | prod m w p comp ih =>
+    cases x <;> cases y <;> simp_all [Shaped, El.sub]
+
+theorem shaped_smul (s : Space ℝ) (a : 𝕜) (x : El 𝕜) (hx : Shaped s x) :
+    Shaped s (x.smul a) := by
+  induction s generalizing x with
+  | tens n w p => cases x <;> simp_all [Shaped, El.smul]
+  | discr u axes w p => cases x <;> simp_all [Shaped, El.smul]
+  | prod m w p comp ih =>
+    cases x <;> simp_all [Shaped, El.smul]
+
+theorem sub_eq_smul_neg (s : Space ℝ) (x y : El 𝕜) (hx : Shaped s x) (hy : Shaped s y) :
+    x.sub y = (y.sub x).smul (-1) := by
+  induction s generalizing x y with
+  | tens n w p =>
+    cases x <;> cases y <;> simp_all [Shaped, El.sub, El.smul]
+  | discr u axes w p =>
+    cases x <;> cases y <;> simp_all [Shaped, El.sub, El.smul]
+  | prod m w p comp ih =>
+    cases x with
+    | vec => simp [Shaped] at hx
+    | tup xs =>
+    cases y with
+    | vec => simp [Shaped] at hy
+    | tup ys =>
+      simp only [Shaped] at hx hy
+      simp only [El.sub, El.smul]
+      congr 1; funext k
+      exact ih k (xs k) (ys k) (hx k) (hy k)
+
+theorem norm_nonneg_tree (close1 : ℝ → Bool) (s : Space ℝ) (hs : SpacePos s)
+    (he : AllExpo ExpoPos s) (x : El 𝕜) (hx : Shaped s x) :
+    0 ≤ Space.norm (ops 𝕜) (roots close1) s x := by
+  cases s with
+  | tens n w p =>
+    cases x with
+    | tup => simp [Shaped] at hx
+    | vec x =>
+      simp only [Space.norm, tNorm_eq_wpn close1 w n hs p he]
+      exact wpn_nonneg n _ (fun i hi => (hs i hi).le) p _ (fun _ _ => norm_nonneg _)
+  | discr u axes w p =>
+    cases x with
+    | tup => simp [Shaped] at hx
+    | vec x =>
+      simp only [Space.norm, dNorm_eq_wpn close1 u axes w hs.1 hs.2 p he]
+      exact wpn_nonneg _ _ (fun i hi => (dW_pos close1 u axes w p hs.1 hs.2 i hi).le) p _
+        (fun _ _ => norm_nonneg _)
+  | prod m w p comp =>
+    cases x with
+    | vec => simp [Shaped] at hx
+    | tup xs =>
+      simp only [Space.norm, pNorm_eq_wpn close1 w m hs.1 p he.1]
+      exact wpn_nonneg m _ (fun i hi => (hs.1 i hi).le) p _ (fun _ _ => abs_nonneg _)
+
+theorem norm_smul_tree (close1 : ℝ → Bool) (s : Space ℝ) (hs : SpacePos s)
+    (he : AllExpo ExpoPos s) (a : 𝕜) (x : El 𝕜) (hx : Shaped s x) :
+    Space.norm (ops 𝕜) (roots close1) s (x.smul a) =
+      ‖a‖ * Space.norm (ops 𝕜) (roots close1) s x := by
+  induction s generalizing x with
+  | tens n w p =>
+    cases x with
+    | tup => simp [Shaped] at hx
+    | vec x =>
+      simp only [Space.norm, El.smul, tNorm_eq_wpn close1 w n hs p he, norm_mul]
+      exact wpn_smul n _ (fun i hi => (hs i hi).le) p he _ (norm_nonneg a) _
+        (fun _ _ => norm_nonneg _)
+  | discr u axes w p =>
+    cases x with
+    | tup => simp [Shaped] at hx
+    | vec x =>
+      simp only [Space.norm, El.smul, dNorm_eq_wpn close1 u axes w hs.1 hs.2 p he, norm_mul]
+      exact wpn_smul _ _ (fun i hi => (dW_pos close1 u axes w p hs.1 hs.2 i hi).le) p he _
+        (norm_nonneg a) _ (fun _ _ => norm_nonneg _)
+  | prod m w p comp ih =>
+    cases x with
+    | vec => simp [Shaped] at hx
+    | tup xs =>
+      simp only [Shaped] at hx
+      simp only [Space.norm, El.smul, pNorm_eq_wpn close1 w m hs.1 p he.1]
+      rw [← wpn_smul m _ (fun i hi => (hs.1 i hi).le) p he.1 _ (norm_nonneg a) _
+        (fun _ _ => abs_nonneg _)]
+      refine wpn_congr p m _ _ _ _ (fun k hk => ?_) (fun _ _ => rfl)
+      rw [ih k (hs.2 k hk) (he.2 k hk) (xs k) (hx k), abs_mul, abs_of_nonneg (norm_nonneg a)]
+
+theorem norm_triangle_tree (close1 : ℝ → Bool) (s : Space ℝ) (hs : SpacePos s)
+    (he : AllExpo ExpoGe1 s) (x y : El 𝕜) (hx : Shaped s x) (hy : Shaped s y) :
+    Space.norm (ops 𝕜) (roots close1) s (x.add y) ≤
+      Space.norm (ops 𝕜) (roots close1) s x + Space.norm (ops 𝕜) (roots close1) s y := by
+  have he' : AllExpo ExpoPos s := AllExpo.mono (fun _ h => ExpoGe1.pos h) s he
+  induction s generalizing x y with
+  | tens n w p =>
+    cases x with
+    | tup => simp [Shaped] at hx
+    | vec x =>
+    cases y with
+    | tup => simp [Shaped] at hy
+    | vec y =>
+      simp only [Space.norm, El.add, tNorm_eq_wpn close1 w n hs p he']
+      have hω : ∀ i, i < n → 0 ≤ twFn w i := fun i hi => (hs i hi).le
+      exact (wpn_mono n _ hω p he' _ _ (fun _ _ => norm_nonneg _)
+        (fun i _ => norm_add_le _ _)).trans
+        (wpn_add n _ hω p he _ _ (fun _ _ => norm_nonneg _) (fun _ _ => norm_nonneg _))
+  | discr u axes w p =>
+    cases x with
+    | tup => simp [Shaped] at hx
+    | vec x =>
+    cases y with
+    | tup => simp [Shaped] at hy
+    | vec y =>
+      simp only [Space.norm, El.add, dNorm_eq_wpn close1 u axes w hs.1 hs.2 p he']
+      have hω : ∀ i, i < axesSize axes → 0 ≤ dW close1 u axes w p i :=
+        fun i hi => (dW_pos close1 u axes w p hs.1 hs.2 i hi).le
+      exact (wpn_mono _ _ hω p he' _ _ (fun _ _ => norm_nonneg _)
+        (fun i _ => norm_add_le _ _)).trans
+        (wpn_add _ _ hω p he _ _ (fun _ _ => norm_nonneg _) (fun _ _ => norm_nonneg _))
+  | prod m w p comp ih =>
+    cases x with
+    | vec => simp [Shaped] at hx
+    | tup xs =>
+    cases y with
+    | vec => simp [Shaped] at hy
+    | tup ys =>
+      simp only [Shaped] at hx hy
+      simp only [Space.norm, El.add, pNorm_eq_wpn close1 w m hs.1 p he'.1]
+      have hω : ∀ i, i < m → 0 ≤ pwFn w i := fun i hi => (hs.1 i hi).le
+      refine (wpn_mono m _ hω p he'.1 _ _ (fun _ _ => abs_nonneg _) (fun k hk => ?_)).trans
+        (wpn_add m _ hω p he.1 _ _ (fun _ _ => abs_nonneg _) (fun _ _ => abs_nonneg _))
+      have h1 := ih k (hs.2 k hk) (he.2 k hk) (xs k) (ys k) (hx k) (hy k) (he'.2 k hk)
+      have h0 := norm_nonneg_tree (𝕜 := 𝕜) close1 (comp k) (hs.2 k hk) (he'.2 k hk) _
+        (shaped_add (comp k) (xs k) (ys k) (hx k) (hy k))
+      rw [abs_of_nonneg h0]
+      exact h1.trans (add_le_add (le_abs_self _) (le_abs_self _))
+
 end OdlModel.C02
